@@ -109,6 +109,42 @@ theorem C13_read_inverts_wire_flat (gtag d : Tag) (ts : List Tag) (rest : List T
   exact ⟨readSpec rest es, readGroup_flat gtag d ts rest hrest es hes hn _ hfuel, readSpec_length rest es,
     readSpec_entry d ts rest es hes⟩
 
+/-- ROUND TRIP AT THE FIELD LEVEL (templates without nested groups).  "A repeating group written … and read back through the
+    same template yields the same number of entries with the same fields and values in the same order … the fields
+    following the group are still found."  For every template `d :: ts` of distinct element tags, every number of entries,
+    every entry built by ANY sequence of setter calls on template tags (any order, overwrites allowed) that sets the
+    delimiter, and anything behind the group that does not start with a template tag:
+    `Write` followed by `Read` returns one entry per entry written, in which every tag that was set maps to a range
+    starting with a field that carries the LATEST value set, and hands back `rest` untouched. -/
+theorem C13_roundtrip_flat (gtag d : Tag) (ts : List Tag) (hts : (d :: ts).Nodup) (rest : List TagValue)
+    (hrest : FollowerOK (d :: ts) rest) (es : List (List (Tag × Bytes)))
+    (hes : ∀ e ∈ es, (∀ p ∈ e, p.1 ∈ d :: ts) ∧ (latest e d).isSome = true) (hn : es.length < 9223372036854775808) :
+    ∃ tvs gs, writeGroup gtag (flatTmpl (d :: ts)) (es.map fldsOf) = .ok tvs ∧
+      readGroup (readFuel (tvs ++ rest)) (flatTmpl (d :: ts)) (tvs ++ rest) = .ok (rest, gs) ∧
+      gs.length = es.length ∧
+      ∀ (i : Nat) (e : List (Tag × Bytes)), es[i]? = some e → ∃ g : GEntry, gs[i]? = some g ∧
+        ∀ t v, latest e t = some v → ∃ tail, alFind g.lookup t = some (TagValue.init t v :: tail) := by
+  have hw := writeEntries_flat (d :: ts) hts es (fun e he => (hes e he).1)
+  have hes' : ∀ e ∈ es.map (canon (d :: ts)), EntryOK d (d :: ts) e := by
+    intro e he
+    obtain ⟨e0, he0, rfl⟩ := List.mem_map.1 he
+    exact canon_entryOK d ts hts e0 (hes e0 he0).2
+  have hfm : (es.map (canon (d :: ts))).flatMap serEntry = es.flatMap (fun e => serEntry (canon (d :: ts) e)) := by
+    rw [List.flatMap_map]
+  have hlen : (es.map (canon (d :: ts))).length = es.length := by simp
+  have hlen2 : (es.map fldsOf).length = es.length := by simp
+  obtain ⟨gs, hread, hgl, hent⟩ := C13_read_inverts_wire_flat gtag d ts rest (es.map (canon (d :: ts))) hrest hes' (by rw [hlen]; exact hn)
+  refine ⟨countTV gtag es.length :: es.flatMap (fun e => serEntry (canon (d :: ts) e)), gs, ?_, ?_, by rw [hgl, hlen], ?_⟩
+  · simp only [writeGroup, hw, hlen2]
+  · rw [hlen, hfm] at hread
+    simpa [List.append_assoc] using hread
+  · intro i e hi
+    obtain ⟨g, hg, _, hfind⟩ := hent i (canon (d :: ts) e) (by simp [hi])
+    refine ⟨g, hg, ?_⟩
+    intro t v hl
+    have hm : t ∈ d :: ts := (hes e (List.mem_of_getElem? hi)).1 _ (latest_mem e t v hl)
+    exact hfind ((canon_tags_sublist (d :: ts) e).nodup hts) t v ((canon_mem (d :: ts) e t v).2 ⟨hm, hl⟩)
+
 /-! ## not (yet) theorems -/
 
 /-- round trip without dictionary, any nesting depth: what `getgrp` must observe after build + parse -/
@@ -135,7 +171,8 @@ example :
 
 /- Clause checklist (properties.jsonl C13):
    "same number of entries"                                  C13_read_count, C13_write_starts_with_count, C13_read_zero
-   "same fields and values in the same order, nested groups" C13_read_inverts_wire_flat (whole Read, templates without nesting);
+   "same fields and values in the same order, nested groups" C13_roundtrip_flat (Write then Read, templates without nesting, any setter calls),
+                                                             C13_read_inverts_wire_flat (whole Read, templates without nesting);
                                                              C13_read_member, C13_read_delimiter (one step each, any template); nested: C13_roundtrip_nodict_full
    "fields following the group are still found"              C13_read_stops_at_follower; with dictionary C13_pop_returns_shorter_stack; whole: …_dict_full
    monitor clauses: group_roundtrip{dict=api|n|a|ta,nested=y|n}, followers_found{dict=…} -/
